@@ -88,6 +88,9 @@ def check(uid, tier, seed=0, only=None, keep=False):
     proofs = unit['proofs']
     if only:
         proofs = [p for p in proofs if re.search(only, p.id)]
+    if not proofs:
+        print('UNDECIDED property=%s no proof selected' % uid)
+        return EXIT_UNDECIDED
     results = run_all(proofs, work)
     findings = [f for f in known_findings() if f['property'] == uid]
     open_findings = {f['id']: f for f in findings if f.get('status') == 'open'}
